@@ -301,6 +301,66 @@ func TestC19(t *testing.T) {
 			r.Floor("openssl_resumed_tls12", 5)
 		}
 	}
+	// specs that carry only ONE of the two session extensions, meeting a server of the other
+	// kind over a shared cache (documented switch PreferSkipResumptionOnNilExtension): the
+	// cached session cannot be offered, and every connection is a full, successful handshake
+	{
+		drop := func(pn string, keepPSK bool) Target {
+			p := ParrotByName(pn)
+			name := p.Name + map[bool]string{true: "-without-session_ticket", false: "-without-pre_shared_key"}[keepPSK]
+			return Target{Name: name, Spec: func() (*tls.ClientHelloSpec, error) {
+				sp, err := tls.UTLSIdToSpec(p.ID)
+				if err != nil {
+					return nil, err
+				}
+				var exts []tls.TLSExtension
+				for _, e := range sp.Extensions {
+					if _, ok := e.(tls.ISessionTicketExtension); ok && keepPSK {
+						continue
+					}
+					if _, ok := e.(tls.PreSharedKeyExtension); ok && !keepPSK {
+						continue
+					}
+					exts = append(exts, e)
+				}
+				sp.Extensions = exts
+				return &sp, nil
+			}}
+		}
+		for _, tg := range []Target{drop("Chrome_100_PSK", true), drop("Chrome_112_PSK_Shuf", true), drop("Chrome_100_PSK", false), drop("Chrome_115_PQ_PSK", false)} {
+			for _, maxv := range []uint16{tls.VersionTLS12, tls.VersionTLS13} {
+				cache := tls.NewLRUClientSessionCache(4)
+				scfg := peer.ServerConfig()
+				scfg.MaxVersion = maxv
+				// the cache already holds a session of this server, stored by another client of the
+				// application (the complete parrot)
+				warm := ParrotByName("Chrome_100_PSK")
+				if w := RunCase(Target{Name: warm.Name, ID: warm.ID}, GridCase{Server: scfg}, "example.test", func(c *tls.Config) { c.ClientSessionCache = cache }, peer.Opts{}); !w.OK() {
+					r.Count("one_session_extension_warmup_failed", 1)
+				}
+				for k := 0; k < 3; k++ {
+					h := RunCase(tg, GridCase{Server: scfg}, "example.test", func(c *tls.Config) {
+						c.ClientSessionCache = cache
+						c.PreferSkipResumptionOnNilExtension = true
+					}, peer.Opts{})
+					rep := map[string]any{"target": tg.Name, "connection": k, "server_max": maxv, "err": h.ErrString()}
+					if h.ClientPanic != "" {
+						r.Violation(map[string]string{"kind": "panic", "target": tg.Name, "mode": "one_session_extension"}, fmt.Sprintf("%s connection %d (server max %#04x): %s", tg.Name, k, maxv, firstLine(h.ClientPanic)), rep)
+						break
+					}
+					if !h.OK() {
+						if allowed, class := classifyFailure(h); !allowed {
+							r.Violation(map[string]string{"kind": "next_handshake_broken", "target": tg.Name, "mode": "one_session_extension"}, fmt.Sprintf("%s connection %d (server max %#04x) failed (%s): %s", tg.Name, k, maxv, class, h.ErrString()), rep)
+						}
+						break
+					}
+					r.Count("one_session_extension_connections_ok", 1)
+					r.Case(fmt.Sprintf("%s|%04x|conn%d|resumed=%v", tg.Name, maxv, k, h.CState.DidResume), true)
+				}
+			}
+		}
+		r.Floor("one_session_extension_connections_ok", 12)
+	}
 	// ONE spec object for consecutive connections over a shared cache (sequentially): the
 	// session an earlier connection attached to the spec's session extension must not be in
 	// the way of the next one
